@@ -6,6 +6,7 @@ import (
 	"fmt"
 	"net"
 	"sync"
+	"sync/atomic"
 	"time"
 
 	"github.com/lightninglabs/lightning-node-connect/mailbox"
@@ -250,6 +251,26 @@ func rtSessionCases(q *oracle, r *rng) {
 			return "c12:mailbox-peer-not-told:closer=server-object", fmt.Sprintf("Server.Close with a live connection: the client's blocked Read is still blocked after %v (its keepalive alone would take about 10 s)", time.Since(t0))
 		}
 		_ = c1.Close()
+		// the listener is closed by whoever owns it and by the gRPC server it was handed to (grpc.Server.Stop closes
+		// its listeners): a second Close, from another goroutine too, has no effect
+		var pan atomic.Value
+		var wg sync.WaitGroup
+		for k := 0; k < 2; k++ {
+			wg.Add(1)
+			go func() {
+				defer wg.Done()
+				defer func() {
+					if rec := recover(); rec != nil {
+						pan.Store(fmt.Sprint(rec))
+					}
+				}()
+				_ = s.srv.Close()
+			}()
+		}
+		wg.Wait()
+		if p := pan.Load(); p != nil {
+			return "c12:close-again-panics:mailbox-listener", "Server.Close called again after it had returned: panic: " + p.(string)
+		}
 		return "", ""
 	})
 
